@@ -412,6 +412,9 @@ func (st *runState) finish(ri *simcheck.RunInfo, sim *simrt.Sim, t0 time.Time, t
 				fmt.Fprintf(os.Stderr, "DBGSQL %s status=%d cols=%v :: %s\n", r.Req.Kind, r.Status, q.Cols, q.SQL)
 			}
 			fmt.Fprintf(os.Stderr, "DBGBODY %s status=%d %.600q\n", r.Req.Kind, r.Status, r.Body.String())
+			if f := os.Getenv("VERIF_DEBUG_BODY"); f != "" {
+				os.WriteFile(f, r.Body.Bytes(), 0o644)
+			}
 		}
 		if os.Getenv("VERIF_DEBUG") != "" && r.Status >= 500 {
 			var errs []string
@@ -578,6 +581,35 @@ func (st *runState) checkDocument(r *reqRec, add func(p, oracle, sig, detail str
 				fmt.Sprintf("req%d %s: %d spans served, %d in the document (distinct ids %d)", r.ID, r.Path, data[0].Served, n, len(ids)))
 		}
 		return
+	}
+	if m, ok := doc.(map[string]any); ok && m["status"] == "success" && !rq.Result.Interleave {
+		// whatever the pipeline: a stream is one object
+		if d, ok := m["data"].(map[string]any); ok && d["resultType"] == "streams" {
+			res, _ := d["result"].([]any)
+			objs := map[string]int{}
+			total := 0
+			for _, o := range res {
+				om, _ := o.(map[string]any)
+				sm, _ := om["stream"].(map[string]any)
+				lm := map[string]string{}
+				for k, v := range sm {
+					lm[k] = fmt.Sprint(v)
+				}
+				objs[labelKey(lm)]++
+				vals, _ := om["values"].([]any)
+				total += len(vals)
+			}
+			for k, n := range objs {
+				if n > 1 && !passThrough(rq.Query) {
+					sig := "one label set is returned as several stream objects (query with in-process stages)"
+					if total >= 3000 {
+						sig = "one label set is returned as several stream objects (in-process log query returning thousands of entries)"
+					}
+					add("C15", "stream-split", sig, fmt.Sprintf("req%d %s: label set %s appears in %d objects; the document holds %d entries in %d objects", r.ID, r.Path, k, n, total, len(res)))
+					break
+				}
+			}
+		}
 	}
 	if rq.Kind == "prom_range" || rq.Kind == "prom_instant" || ((rq.Kind == "query_range" || rq.Kind == "query") && !passThrough(rq.Query)) {
 		// metric results: shape, one object per series, timestamps; served values where ClickHouse computes everything
